@@ -248,6 +248,13 @@ func GenCase(t *rapid.T, maxInputs, maxLines int) Case {
 	for i := 0; i < n; i++ {
 		c.Inputs = append(c.Inputs, Input{Name: fmt.Sprintf("in%d.log", i), Content: pbt.S(GenContent(t, lines, true))})
 	}
+	if rapid.IntRange(0, 7).Draw(t, "missing") == 0 {
+		// unopenable inputs, sometimes as many as (or more than) the reader slots
+		nm := rapid.IntRange(1, 5).Draw(t, "nmissing")
+		for i := 0; i < nm; i++ {
+			c.Missing = append(c.Missing, rapid.IntRange(0, n).Draw(t, "missingAt"))
+		}
+	}
 	c.Matcher, c.Extract = GenMatcher(t)
 	ni := rapid.SampledFrom([]int{0, 0, 1, 1, 2}).Draw(t, "nignore")
 	for i := 0; i < ni; i++ {
